@@ -639,7 +639,9 @@ def write_evidence(prop, engine, args, agg, wall, nviol, known_ids, problems, re
     ev = {
         'property_id': prop, 'tier': args.tier, 'seed': args.seed, 'level': 'exploration',
         'coverage': {
-            'evaluations': int(agg['runs']),
+            'evaluations': int(agg['steps']),
+            'evaluations_unit': 'plan steps (one real AVEL operation or environment jump each, every oracle applied afterwards); see simulated_runs for whole runs',
+            'simulated_runs': int(agg['runs']),
             'distinct_nontrivial': len(agg['distinct']),
             'rule': RULES[engine],
             'samples': samples,
